@@ -86,6 +86,11 @@ def table_of(fb, ctor):
 
 
 def run(fb, rep, tier):
+    _run(fb, rep, tier)
+    bool_literals(fb, rep)
+
+
+def _run(fb, rep, tier):
     rep.extra['explanation'] = EXPLANATION
     rep.extra['assumptions'] = ['constants are evaluated over literals, enumerators, unary minus, + - * / and soplex::infinity (= 1e100 as initialised in spxdefines.cpp)']
     S = C + '::Settings'
@@ -542,3 +547,41 @@ def front_ends(fb, rep):
     for f in (a, b):
         seeds = [n for n in f.nodes if M.is_this_call(n, 'setRandomSeed')]
         rep.check(len(seeds) == 1, 'R15.6', f.short + '|uint|random_seed', f.where(), 'uint:random_seed reaches setRandomSeed', 'uint:random_seed does not reach setRandomSeed')
+
+
+def bool_literals(fb, rep):
+    """R15.7: the text front ends accept a boolean value only if the WHOLE value is one of the literals.  A length-limited comparison whose
+    limit does not exceed the literal's length accepts every text that merely starts with it ("truex"), and a strtol/atoi fallback turns
+    every non-numeric text into 0 (and takes its third argument as a base, not a length)."""
+    rep.rule('R15.7', 'boolean values in the text front ends are compared exactly with the literals (no prefix match, no numeric fallback)', floor=8)
+    k = 0
+    for nm in ('_parseSettingsLine', 'parseSettingsString'):
+        f = fb.one(C + '::' + nm)
+        lit = [n for n in f.nodes if n.k == 'CallExpr' and n.short in ('strncasecmp', 'strncmp', 'strcasecmp', 'strcmp') and any(strip(a).k == 'StringLiteral' and (strip(a).v or '').lower() in ('true', 'false', 't', 'f', '1', '0') for a in n.args())]
+        if len(lit) < 4:
+            raise AnalysisBroken('%s: comparisons with the boolean literals not found' % nm)
+        for n in lit:
+            k += 1
+            s_ = [strip(a) for a in n.args() if strip(a).k == 'StringLiteral'][0]
+            key = '%s|%s("%s")' % (nm, n.short, s_.v)
+            wh = '%s:%d' % (f.file, n.l)
+            if n.short in ('strncasecmp', 'strncmp'):
+                lim = const_eval(n.args()[2], fb) if len(n.args()) > 2 else None
+                rep.check(lim is not None and lim > len(s_.v), 'R15.7', key, wh, 'limit %s covers the terminator' % lim,
+                          '%s compares only the first %s characters with "%s": every value that starts with it is accepted' % (n.short, lim, s_.v))
+            else:
+                rep.ok('R15.7', key, wh, 'whole-string comparison')
+        # numeric fallbacks in the boolean branch: the if statements that contain the literal comparisons
+        conds = set()
+        for n in lit:
+            for a in f.ancestors(n):
+                if a.k == 'IfStmt' and any(x.i == n.i for x in a.kid('cond').walk()):
+                    conds.add(a.i)
+        for ci in sorted(conds):
+            a = f.nodes[ci] if isinstance(f.nodes, list) else [x for x in f.nodes if x.i == ci][0]
+            num = [x for x in a.kid('cond').walk() if x.k == 'CallExpr' and x.short in ('strtol', 'atoi', 'strtoul', 'atol')]
+            k += 1
+            rep.check(not num, 'R15.7', '%s|numeric-fallback@%d' % (nm, a.l), '%s:%d' % (f.file, a.l), 'no numeric fallback',
+                      'the boolean test falls back on %s: every non-numeric text converts to 0 and is accepted as a boolean value' % (render(num[0])[:50] if num else ''))
+    if k < 8:
+        raise AnalysisBroken('R15.7: only %d boolean literal comparisons found' % k)
